@@ -28,6 +28,7 @@ def run(ctx: Ctx) -> None:
     numeric.rule_raise_warning(ctx, [(DMF, "fidelity"), (DMF, "trace_distance"), (DMF, "partial_trace"),
                                      (METRICS, "Infidelity.evaluate"), (METRICS, "TraceDistance.evaluate")])
     rule_rep_dispatch(ctx)
+    numeric.rule_hermitian_args(ctx, DMF, ["fidelity", "trace_distance"])
     shapes.rule_trace_distance_shape(ctx)
     ctx.floor("num.adjoint", 15)
     ctx.floor("num.raise-warning", 8)
@@ -68,6 +69,7 @@ def rule_rep_dispatch(ctx: Ctx) -> None:
 
 
 KNOCKOUTS = [
+    Knockout("fidelity-one-sided-product", DMF, sub_once("rho_sigma = sqrt_rho @ sigma @ sqrt_rho", "rho_sigma = sqrt_rho @ sqrt_rho @ sigma"), "num.hermitian-arg", "non-Hermitian product"),
     Knockout("dist-half", DMF, sub_once("    return 0.5 * np.sum(np.abs(eigvals))", "    return np.sum(np.abs(eigvals))"), "dist.shape", "trace_distance"),
     Knockout("fid-pure-and", DMF, sub_once("    if is_pure(rho) or is_pure(sigma):", "    if is_pure(rho) and is_pure(sigma):"), "dist.shape", "fidelity"),
     Knockout("G1-drop-conjugate-channel", DMS,
